@@ -29,6 +29,8 @@ type pmStep struct {
 	Random bool       `json:"random"`
 	Proto  string     `json:"proto"`
 	Port   int        `json:"port"`
+	// SaveFault: the iptables-save of this step fails (the xtables lock is held by someone else)
+	SaveFault bool `json:"save_fault"`
 }
 
 type pmCase struct {
@@ -133,7 +135,9 @@ func portmapCase(c map[string]interface{}) map[string]interface{} {
 			case "clean":
 				err = h.CleanPortMapping(st.Ports)
 			case "setup_all":
+				k.ArmSaveFault(st.SaveFault)
 				err = h.SetupPortMappingForAllPods(st.Ports)
+				k.ArmSaveFault(false)
 			case "open":
 				for _, p := range st.Ports {
 					if pr := strings.ToLower(p.Protocol); p.HostPort > 0 && (pr == "tcp" || pr == "udp") {
